@@ -29,7 +29,7 @@ Theorem revoke_table_meaning : forall base items b id,
   (forall id' b', In (IR id' b') items -> inwin base id') -> inwin base id ->
   (test_rev (fold_left add_rev items []) b id = true <->
    exists id', In (IR id' b) items /\ ord base id <= ord base id').
-Proof. exact table_test. Qed.
+Proof. exact (fun base items b id Hb => table_test base Hb items b id). Qed.
 Print Assumptions revoke_table_meaning.
 
 (* REVOKE and REPLAY read exactly the same log items (one walk). *)
